@@ -41,3 +41,28 @@ Proof. unfold binv, start_book. cbn. lia. Qed.
    sequence of the operations its code performs can make an assertion fail *)
 Corollary no_token_assertion_fails es : exists b', prun es start_book = Some b' /\ binv b'.
 Proof. apply prun_safe, binv_start. Qed.
+
+(* The book before fix F81: a cheat was counted even on top of an unpaid one.
+   The sequence found by a bug-hunting agent on the implementation -- give the
+   token away for a lock wait, cheat, start a job with the cheated token, reap
+   it through a cheat byte of its own, cheat again, exit -- fails the assertion
+   `cheats <= my_tokens` ("mytokens=1, cheats=2"); with the fix it is safe. *)
+Definition pstep_before_F81 (e : lev) (b : book) : option book :=
+  match e with
+  | PCheat => if Z.eqb (my b) 0 && Z.eqb (kids b) 0
+              then Some {| my := 1; ch := ch b + 1; kids := kids b |} else Some b
+  | _ => pstep e b
+  end.
+Fixpoint prun_before_F81 (es : list lev) (b : book) : option book :=
+  match es with
+  | [] => Some b
+  | e :: es' => match pstep_before_F81 e b with Some b' => prun_before_F81 es' b' | None => None end
+  end.
+Definition double_cheat : list lev := [PReleaseMine; PCheat; PStart; PReapEat; PCheat; PExit].
+Lemma double_cheat_refuted_before_F81 : prun_before_F81 double_cheat start_book = None.
+Proof. vm_compute. reflexivity. Qed.
+(* with the fix the second PCheat is refused (the process goes on waiting), a real
+   token arrives, and the exit is safe *)
+Definition debt_repaid : list lev := [PReleaseMine; PCheat; PStart; PReapEat; PCheat; PRead; PExit].
+Lemma debt_repaid_safe : prun debt_repaid start_book = Some {| my := 1; ch := 1; kids := 0 |}.
+Proof. vm_compute. reflexivity. Qed.
